@@ -89,6 +89,18 @@ class GaussHole(Gauss):
         return np.where(x[self.names[0]] > 2.5, -np.inf, out)
 
 
+class GaussCut(Gauss):
+    """Uniform prior on the box with a cut: zero prior (log-prior -inf) where x0 < x1, i.e. the
+    prior support is a strict subset of its bounding box."""
+
+    def log_prior(self, x):
+        lp = np.log(self.in_bounds(x), dtype="float64") + self._log_prior_const + np.log(2.0)
+        return np.where(x[self.names[0]] >= x[self.names[1]], lp, -np.inf)
+
+    def to_unit_hypercube(self, x):
+        return super().to_unit_hypercube(x)
+
+
 class GW5(Model):
     """GW-named parameters with conventional bounds; priors: uniform in mass parameters,
     ra, psi; cosine in dec; Gaussian likelihood in rescaled coordinates.  Exists only to
@@ -164,6 +176,8 @@ def make(name="G2", **kw):
         return Gauss(3, **kw)
     if name == "G4":
         return Gauss(4, **kw)
+    if name == "G2cut":
+        return GaussCut(2, **kw)
     if name == "G2hole":
         return GaussHole(2, **kw)
     if name == "GW5":
